@@ -23,3 +23,91 @@ package ctfe
 //@ ensures [align-only-shortens] result2 == nil && align ==> wide(result1) <= unaligned
 //@ ensures [align-boundary] result2 == nil && align && wide(result1) != unaligned ==> (wide(result1) + 1) % wide(maxRange) == 0
 //@ ensures [error-zero] result2 != nil ==> result0 == 0 && result1 == 0
+
+//@ func (*logInfo).toHTTPStatus
+//@ props C08
+//@ site field:ErrorMapper#1 as em
+//@ site status.FromError#1 as fe
+//@ site Code#1 as code
+//@ requires li != nil
+//@ let mapped = em.called && em.res1
+//@ ensures [mapper-wins] mapped ==> result == em.res0
+//@ ensures [not-grpc-500] !mapped && !fe.ok ==> result == 500
+//@ ensures [ok] !mapped && fe.ok && code.res == codes.OK ==> result == 200
+//@ ensures [timeouts-504] !mapped && fe.ok && (code.res == codes.Canceled || code.res == codes.DeadlineExceeded) ==> result == 504
+//@ ensures [caller-400] !mapped && fe.ok && (code.res == codes.InvalidArgument || code.res == codes.OutOfRange || code.res == codes.AlreadyExists) ==> result == 400
+//@ ensures [notfound-404] !mapped && fe.ok && code.res == codes.NotFound ==> result == 404
+//@ ensures [denied-403] !mapped && fe.ok && code.res == codes.PermissionDenied ==> result == 403
+//@ ensures [quota-429] !mapped && fe.ok && code.res == codes.ResourceExhausted ==> result == 429
+//@ ensures [unauth-401] !mapped && fe.ok && code.res == codes.Unauthenticated ==> result == 401
+//@ ensures [precond-412] !mapped && fe.ok && code.res == codes.FailedPrecondition ==> result == 412
+//@ ensures [aborted-409] !mapped && fe.ok && code.res == codes.Aborted ==> result == 409
+//@ ensures [unimpl-501] !mapped && fe.ok && code.res == codes.Unimplemented ==> result == 501
+//@ ensures [unavailable-503] !mapped && fe.ok && code.res == codes.Unavailable ==> result == 503
+//@ ensures [other-500] !mapped && fe.ok && (code.res == codes.Unknown || code.res == codes.Internal || code.res == codes.DataLoss || code.res > codes.Unauthenticated) ==> result == 500
+//@ ensures [only-ok-is-200] !mapped && result == 200 ==> fe.ok && code.res == codes.OK
+//@ ensures [backend-fault-never-200] li.instanceOpts.ErrorMapper == nil && grpcCode(err) != 0 ==> result != 200
+//@ ensures [retryable-statuses] li.instanceOpts.ErrorMapper == nil && result == 429 ==> grpcCode(err) == 8
+//@ ensures [status-range] li.instanceOpts.ErrorMapper == nil ==> result == 200 || (400 <= result && result <= 504)
+//@ pure
+//@ note pure: the ErrorMapper callback is assumed not to modify memory (pure-callees list)
+
+//@ func parseGetSTHConsistencyRange
+//@ props C06 C08
+//@ pure
+//@ site strconv.ParseInt#1 as pf
+//@ site strconv.ParseInt#2 as psd
+//@ site FormValue#1 as fv1
+//@ site FormValue#2 as fv2
+//@ requires r != nil
+//@ ensures [accept-iff] result2 == nil <==> (fv1.res != "" && fv2.res != "" && pf.called && pf.err == nil && psd.called && psd.err == nil && 0 <= pf.i && pf.i <= psd.i)
+//@ ensures [values] result2 == nil ==> result0 == pf.i && result1 == psd.i
+//@ ensures [ordered] result2 == nil ==> 0 <= result0 && result0 <= result1
+//@ at pf assert pf.s == fv1.res
+//@ at psd assert psd.s == fv2.res
+//@ at fv1 assert fv1.key == "first"
+//@ at fv2 assert fv2.key == "second"
+
+//@ func parseGetEntryAndProofParams
+//@ props C07 C08
+//@ pure
+//@ site strconv.ParseInt#1 as pl
+//@ site strconv.ParseInt#2 as pt
+//@ site FormValue#1 as fv1
+//@ site FormValue#2 as fv2
+//@ requires r != nil
+//@ ensures [accept-iff] result2 == nil <==> (pl.err == nil && pt.called && pt.err == nil && pt.i > 0 && 0 <= pl.i && pl.i < pt.i)
+//@ ensures [values] result2 == nil ==> result0 == pl.i && result1 == pt.i
+//@ at fv1 assert fv1.key == "leaf_index"
+//@ at fv2 assert fv2.key == "tree_size"
+//@ at pl assert pl.s == fv1.res
+//@ at pt assert pt.s == fv2.res
+
+//@ func checkAuditPath
+//@ props C06 C08
+//@ arith int
+//@ pure
+//@ loop 1 invariant -1 <= rangeindex && rangeindex < len(path) + (len(path) == 0 ? 1 : 0) && (forall j int :: 0 <= j && j <= rangeindex ==> len(path[j]) == 32)
+//@ ensures [all-32] result <==> (forall j int :: 0 <= j && j < len(path) ==> len(path[j]) == 32)
+
+//@ func getSTHConsistency
+//@ props C06 C08
+//@ site parseGetSTHConsistencyRange#1 as pr
+//@ site GetConsistencyProof#1 as rpc
+//@ site UnmarshalBinary#1 as um
+//@ site checkAuditPath#1 as cap
+//@ site toHTTPStatus#1 as ths
+//@ site Write#1 as wr
+//@ requires li != nil && li.rpcClient != nil && li.RequestLog != nil && w != nil && r != nil
+//@ stable li
+//@ ensures [param-error-400-no-rpc] pr.res2 != nil ==> result0 == 400 && result1 != nil && !rpc.called
+//@ ensures [rpc-iff-first-nonzero] rpc.called <==> (pr.res2 == nil && pr.res0 != 0)
+//@ ensures [backend-error-mapped] rpc.called && rpc.res1 != nil ==> result0 == ths.res && result1 != nil && !wr.called
+//@ ensures [backend-error-never-200] li.instanceOpts.ErrorMapper == nil && rpc.called && rpc.res1 != nil ==> result0 != 200
+//@ ensures [200-sane] li.instanceOpts.ErrorMapper == nil && result0 == 200 ==> result1 == nil && pr.res2 == nil && (pr.res0 == 0 || (rpc.called && rpc.res1 == nil && um.called && um.res == nil && cap.called && cap.res))
+//@ ensures [non200-error] result0 != 200 ==> result1 != nil
+//@ ensures [bad-root-500] um.called && um.res != nil ==> result0 == 500
+//@ ensures [bad-proof-500] cap.called && !cap.res ==> result0 == 500
+//@ at rpc assert [request-fields] rpc.in.LogId == li.logID && rpc.in.FirstTreeSize == pr.res0 && rpc.in.SecondTreeSize == pr.res1
+//@ at ths assert [maps-backend-error] ths.err == rpc.res1
+//@ at cap assert [checks-returned-proof] rpc.res0.Proof != nil && cap.path == rpc.res0.Proof.Hashes
